@@ -228,6 +228,15 @@ func (e *Engine) Run(fn *ssa.Function) *HarnessResult {
 					e.cond.Broadcast()
 					break
 				}
+				if res.Paths["inconclusive"] >= 64 {
+					// the solver keeps timing out: stop exploring, the harness is reported as not exhaustive
+					res.Truncated = true
+					res.Notes["exploration stopped after 64 inconclusive paths (solver time-outs)"] = true
+					e.work = nil
+					e.mu.Unlock()
+					e.cond.Broadcast()
+					break
+				}
 				if e.Cfg.MaxPaths > 0 && e.npaths >= e.Cfg.MaxPaths {
 					res.Truncated = true
 					e.work = nil
